@@ -31,8 +31,10 @@ package expr
 // Decoding s[i:n] onto an output array from position k on: a backslash with a following character inside
 // the quotes stands for the character the grammar assigns to it, every other character for itself.
 //@ spec fun escVal(c int) int = c == 'b' ? 8 : (c == 'f' ? 12 : (c == 'n' ? 10 : (c == 'r' ? 13 : (c == 't' ? 9 : c))))
-//@ spec rec fun decArr(s string, i int, n int, a smt:(Array Int Int), k int) smt:(Array Int Int) = i >= n ? a : (s[i] == 92 && i + 1 < n ? decArr(s, i + 2, n, upd(a, k, escVal(s[i+1])), k + 1) : decArr(s, i + 1, n, upd(a, k, s[i]), k + 1))
-//@ spec rec fun decLen(s string, i int, n int, k int) int = i >= n ? k : (s[i] == 92 && i + 1 < n ? decLen(s, i + 2, n, k + 1) : decLen(s, i + 1, n, k + 1))
+//@ spec fun escStep(s string, i int, n int) int = s[i] == 92 && i + 1 < n ? 2 : 1
+//@ spec fun escByte(s string, i int, n int) int = s[i] == 92 && i + 1 < n ? escVal(s[i+1]) : s[i]
+//@ spec rec fun decArr(s string, i int, n int, a smt:(Array Int Int), k int) smt:(Array Int Int) = i >= n ? a : decArr(s, i + escStep(s, i, n), n, upd(a, k, escByte(s, i, n)), k + 1)
+//@ spec rec fun decLen(s string, i int, n int, k int) int = i >= n ? k : decLen(s, i + escStep(s, i, n), n, k + 1)
 //@ spec fun isTokenValue(s string, v string) bool = len(s) >= 2 ==> len(v) == decLen(s, 1, len(s) - 1, 0) && (forall j int :: 0 <= j && j < len(v) ==> v[j] == decArr(s, 1, len(s) - 1, zero_arr, 0)[j])
 
 //@ func expr.unquote
